@@ -153,6 +153,8 @@ def key_token(k):
         return ("py", k)
     if isinstance(k, FmtReal):
         raise Unsupported("symbolic string as dict key")
+    if hasattr(k, "ext_key"):
+        return k.ext_key()
     raise Unsupported("unsupported dict key %r" % (k,))
 
 
@@ -686,6 +688,9 @@ class Interp:
         if hasattr(v, "ext_getattr"):
             return v.ext_getattr(self, name)
         if isinstance(v, (PList, PDict, PSet, str, tuple)):
+            native = list if isinstance(v, PList) else dict if isinstance(v, PDict) else set if isinstance(v, PSet) else type(v)
+            if not hasattr(native, name):
+                self.raise_native(AttributeError, node, "'%s' object has no attribute '%s'" % (native.__name__, name))
             return BoundM(NativeFn(name, _builtin_method(name)), v)
         if v is None:
             self.raise_native(AttributeError, node, "NoneType has no attribute %s" % name)
@@ -1525,6 +1530,8 @@ class Interp:
                     r = self.call(BoundM(f, v), [], {})
                     return r
             return OpaqueStr()
+        if hasattr(v, "ext_str"):
+            return v.ext_str(self)
         if isinstance(v, (PList, PDict, PSet, tuple, ClassV, FuncV, ExcObj, ExtType)):
             return OpaqueStr()
         if isinstance(spec, str) and spec:
